@@ -28,7 +28,7 @@ Expect(s, ev) ==
          LET good == Len(ev.key) = 16
              okErr == ev.panic = "" /\ ((ev.err = "") <=> good)
              okKind == good => (/\ ev.blocksize = 16
-                                /\ (ev.asm /\ ev.asm_available) <=> (ev.kind = "*sm4.sm4CipherAsm"))
+                                /\ (ev.asm /\ ev.asm_available) <=> ~ev.portable)
          IN [st |-> IF good /\ ev.err = "" THEN Put(s, ev.h, [rk |-> S4!RoundKeys(ev.key)]) ELSE s,
              ok |-> okErr /\ okKind /\ ev.key_after = ev.key,
              why |-> IF ~okErr THEN "newcipher: key length rule" ELSE "newcipher: dispatch / key slice modified"]
